@@ -25,12 +25,12 @@ assert patch.strip(), "no change in the worktree"
 ran = {}
 rc1, o1 = demo()
 ran["demo with the change"] = "exit %d: %s" % (rc1, o1.strip().splitlines()[-1] if o1.strip() else "")
-open("/tmp/_seed.patch", "w").write(patch)
+open("/tmp/_seed_%s.patch" % prop, "w").write(patch)
 sh(["git", "-C", wt, "checkout", "--", "."])
 try:
     rc0, o0 = demo()
 finally:
-    r = sh(["git", "-C", wt, "apply", "/tmp/_seed.patch"])
+    r = sh(["git", "-C", wt, "apply", "/tmp/_seed_%s.patch" % prop])
     assert r.returncode == 0, r.stdout
 ran["demo without the change"] = "exit %d: %s" % (rc0, o0.strip().splitlines()[-1] if o0.strip() else "")
 t = sh(["/venv/bin/python", "-m", "pytest", "-q", "-p", "no:cacheprovider", "_unittests/ut_helpers", "_unittests/ut_metrics",
